@@ -20,7 +20,7 @@ TABLES_FILE = [None]
 CACHE = [{}]
 CACHE_KEYS = {"ascii": ["ascii"], "boundaries": ["b_int", "b_long", "b_float"], "typeconfusion": ["o2t", "all_types", "stack_types"],
               "defaults": ["def_min", "def_max", "def_rate"], "all_mutators": ["all_safe", "all_unsafe_extra"],
-              "guards": ["guards_lines"]}
+              "guards": ["guards_lines"], "helpers": ["helpers_list"]}
 
 
 sys.path.insert(0, os.path.dirname(os.path.abspath(__file__)))
@@ -231,6 +231,14 @@ def extract(repo):
         except G.Refuse as ex:
             raise Refuse(str(ex))
     soft("guards", ["C01", "C02", "C03", "C05", "C10", "C11", "C12", "C17"], ["guards_lines"], sec_guards)
+    # ... and the helper predicates those guards are written in (utils.rs), recognised by their exact shape
+    def sec_helpers():
+        import guards as G
+        try:
+            R["helpers_list"] = [[h, sh, ks] for h, sh, ks in G.helpers(repo)]
+        except G.Refuse as ex:
+            raise Refuse(str(ex))
+    soft("helpers", ["C01", "C02", "C03", "C05", "C10", "C11", "C12", "C17"], ["helpers_list"], sec_helpers)
     # C14: every in-place mutation site works on a stack cell (bound by self.peek() / self.pop()), and
     # Stack::push registers the cell it creates; reset and Drop release the registered cells.
     # A refusal in this section concerns C14 only: it is recorded (R["heap_refused"]) instead of aborting the
@@ -383,7 +391,7 @@ def main():
         sys.exit(3)
     import guards as G
     gout = os.path.join(os.path.dirname(os.path.abspath(a.out)), "GeneratedGuards.lean")
-    gtxt = G.render(R["guards_lines"])
+    gtxt = G.render(R["guards_lines"], [tuple(x) for x in R["helpers_list"]])
     if (open(gout).read() if os.path.exists(gout) else None) != gtxt:
         open(gout, "w").write(gtxt)
         print("translate: GeneratedGuards.lean rewritten")
